@@ -236,3 +236,338 @@ theorem ceil_lt_add_one (g : Rat) : (g.ceil : Rat) < g + 1 := by
   grind
 
 end StarsimModel.Pregnancy
+
+namespace StarsimModel.Pregnancy
+
+/-! ### whole-history link invariants -/
+
+/-- per-agent part: exclusive flags, a child link only while pregnant or post-partum, and every pregnancy has one -/
+def Agent.ok (a : Agent) : Bool :=
+  a.excl && (a.child.isNone || a.pregnant || a.postpartum) && (!a.pregnant || a.child.isSome)
+
+/-- relational part: `child_uid[m] = c` implies `parent[c] = m` -/
+def Links (l : List Agent) : Prop :=
+  ∀ (m : Nat) (a : Agent) (c : Nat), l[m]? = some a → a.child = some c → ∃ b : Agent, l[c]? = some b ∧ b.parent = some m
+
+/-- every maternal edge joins a mother and her child -/
+def EdgesJoin (l : List Agent) (es : List Edge) : Prop :=
+  ∀ e ∈ es, ∃ b : Agent, l[e.p2]? = some b ∧ b.parent = some e.p1
+
+/-- a per-agent update that keeps `parent` and keeps or clears `child` -/
+def Gentle (f : Nat → Agent → Agent) : Prop :=
+  ∀ k a, (f k a).parent = a.parent ∧ ((f k a).child = a.child ∨ (f k a).child = none)
+
+theorem Links_mapIdx {f : Nat → Agent → Agent} {l : List Agent} (hf : Gentle f) (h : Links l) : Links (mapIdx f l 0) := by
+  intro m a' c hm hc
+  rw [getElem?_mapIdx] at hm
+  cases hl : l[m]? with
+  | none => simp [hl] at hm
+  | some a =>
+      simp only [hl, Option.map_some, Nat.zero_add, Option.some.injEq] at hm; subst hm
+      have hca : a.child = some c := by
+        rcases (hf m a).2 with h1 | h1
+        · rw [← h1]; exact hc
+        · rw [h1] at hc; cases hc
+      obtain ⟨b, hb, hp⟩ := h m a c hl hca
+      exact ⟨f c b, by rw [getElem?_mapIdx, hb]; simp, by rw [(hf c b).1]; exact hp⟩
+
+theorem map_eq_mapIdx {α β : Type} (g : α → β) : ∀ (l : List α) (i : Nat), l.map g = mapIdx (fun _ => g) l i
+  | [], _ => rfl
+  | a :: as, i => by simp [mapIdx, map_eq_mapIdx g as (i + 1)]
+
+theorem Links_map {g : Agent → Agent} {l : List Agent} (hg : Gentle (fun _ => g)) (h : Links l) : Links (l.map g) := by
+  rw [map_eq_mapIdx g l 0]; exact Links_mapIdx hg h
+
+theorem EdgesJoin_mapIdx {f : Nat → Agent → Agent} {l : List Agent} {es : List Edge} (hf : Gentle f) (h : EdgesJoin l es) :
+    EdgesJoin (mapIdx f l 0) es := by
+  intro e he
+  obtain ⟨b, hb, hp⟩ := h e he
+  exact ⟨f e.p2 b, by rw [getElem?_mapIdx, hb]; simp, by rw [(hf e.p2 b).1]; exact hp⟩
+
+theorem EdgesJoin_map {g : Agent → Agent} {l : List Agent} {es : List Edge} (hg : Gentle (fun _ => g)) (h : EdgesJoin l es) :
+    EdgesJoin (l.map g) es := by
+  rw [map_eq_mapIdx g l 0]; exact EdgesJoin_mapIdx hg h
+
+theorem EdgesJoin_sub {l : List Agent} {es es' : List Edge} (h : EdgesJoin l es) (hs : ∀ e ∈ es', e ∈ es) : EdgesJoin l es' :=
+  fun e he => h e (hs e he)
+
+theorem gentle_deliver (ti : Rat) : Gentle (fun _ => Agent.deliver ti) := by
+  intro k a
+  show (Agent.deliver ti a).parent = a.parent ∧ ((Agent.deliver ti a).child = a.child ∨ (Agent.deliver ti a).child = none)
+  unfold Agent.deliver; split <;> simp
+theorem gentle_endPostpartum (ti : Rat) : Gentle (fun _ => Agent.endPostpartum ti) := by
+  intro k a
+  show (Agent.endPostpartum ti a).parent = a.parent ∧ ((Agent.endPostpartum ti a).child = a.child ∨ (Agent.endPostpartum ti a).child = none)
+  unfold Agent.endPostpartum; split <;> simp
+theorem gentle_maternalDeath (ti st : Rat) : Gentle (fun _ => Agent.maternalDeath ti st) := by
+  intro k a
+  show (Agent.maternalDeath ti st a).parent = a.parent ∧ ((Agent.maternalDeath ti st a).child = a.child ∨ (Agent.maternalDeath ti st a).child = none)
+  unfold Agent.maternalDeath; split <;> simp
+theorem gentle_ageBy (dt : Rat) : Gentle (fun _ => Agent.ageBy dt) := by
+  intro k a
+  show (Agent.ageBy dt a).parent = a.parent ∧ ((Agent.ageBy dt a).child = a.child ∨ (Agent.ageBy dt a).child = none)
+  unfold Agent.ageBy; split <;> simp
+
+/-- the whole-state invariant -/
+structure Inv (s : State) : Prop where
+  ok : ∀ a ∈ s.agents, a.ok = true
+  links : Links s.agents
+  pre : EdgesJoin s.agents s.pre
+  post : EdgesJoin s.agents s.post
+
+theorem ok_excl {a : Agent} (h : a.ok = true) : a.excl = true := by
+  simp only [Agent.ok, Bool.and_eq_true] at h; exact h.1.1
+
+theorem ok_deliver (ti : Rat) (a : Agent) (h : a.ok = true) : (a.deliver ti).ok = true := by
+  unfold Agent.deliver; split
+  · revert h; simp only [Agent.ok, Agent.excl]; cases a.child <;> simp
+  · exact h
+
+theorem ok_endPostpartum (ti : Rat) (a : Agent) (h : a.ok = true) : (a.endPostpartum ti).ok = true := by
+  unfold Agent.endPostpartum; split
+  · rename_i hc
+    simp only [Bool.and_eq_true] at hc
+    have hp := hc.1.2
+    revert h; simp only [Agent.ok, Agent.excl, hp]; cases a.fecund <;> cases a.pregnant <;> cases a.child <;> simp
+  · exact h
+
+theorem ok_maternalDeath (ti st : Rat) (a : Agent) (h : a.ok = true) : (a.maternalDeath ti st).ok = true := by
+  unfold Agent.maternalDeath; split <;> exact h
+
+theorem ok_ageBy (dt : Rat) (a : Agent) (h : a.ok = true) : (a.ageBy dt).ok = true := by
+  unfold Agent.ageBy; split <;> exact h
+
+theorem ok_setPrognoses {p : Pars} {ti : Rat} {d : Draws} {u : Nat} {a : Agent} (c : Nat)
+    (h : a.ok = true) (hf : a.fecund = true) : ({ a.setPrognoses p ti d u with child := some c } : Agent).ok = true := by
+  revert h; simp only [Agent.ok, Agent.excl, Agent.setPrognoses, hf]; cases a.pregnant <;> cases a.postpartum <;> simp
+
+theorem ok_embryo (p : Pars) (ti : Rat) (d : Draws) (m : Nat) : (embryo p ti d m).ok = true := by
+  simp [embryo, Agent.ok, Agent.excl]
+
+theorem updateStates_inv {p : Pars} {ti st : Rat} {s s' : State} (h : updateStates p ti st s = .ok s') (i : Inv s) : Inv s' := by
+  unfold updateStates at h
+  dsimp only at h
+  have hg : ∀ (l : List Agent), Links l → Links (((l.map (Agent.deliver ti)).map (Agent.endPostpartum ti)).map (Agent.maternalDeath ti st)) :=
+    fun l hl => Links_map (gentle_maternalDeath ti st) (Links_map (gentle_endPostpartum ti) (Links_map (gentle_deliver ti) hl))
+  have he : ∀ (l : List Agent) (es : List Edge), EdgesJoin l es →
+      EdgesJoin (((l.map (Agent.deliver ti)).map (Agent.endPostpartum ti)).map (Agent.maternalDeath ti st)) es :=
+    fun l es hl => EdgesJoin_map (gentle_maternalDeath ti st) (EdgesJoin_map (gentle_endPostpartum ti) (EdgesJoin_map (gentle_deliver ti) hl))
+  split at h
+  · simp at h
+  · rename_i pre' post' hmoved
+    simp only [Except.ok.injEq] at h; subst h
+    have hok : ∀ a ∈ ((s.agents.map (Agent.deliver ti)).map (Agent.endPostpartum ti)).map (Agent.maternalDeath ti st), a.ok = true := by
+      intro a ha
+      simp only [List.mem_map] at ha
+      obtain ⟨a3, ⟨a2, ⟨a1, h1, rfl⟩, rfl⟩, rfl⟩ := ha
+      exact ok_maternalDeath _ _ _ (ok_endPostpartum _ _ (ok_deliver _ _ (i.ok a1 h1)))
+    split at hmoved
+    · split at hmoved
+      · simp only [Except.ok.injEq, Prod.mk.injEq] at hmoved
+        obtain ⟨rfl, rfl⟩ := hmoved
+        refine ⟨hok, hg _ i.links, he _ _ (EdgesJoin_sub i.pre (fun e he => (List.mem_filter.mp he).1)), ?_⟩
+        apply he
+        intro e hme
+        rcases List.mem_append.mp hme with hme | hme
+        · exact i.post e hme
+        · simp only [List.mem_map, List.mem_filter] at hme
+          obtain ⟨e0, ⟨he0, _⟩, rfl⟩ := hme
+          exact i.pre e0 he0
+      · simp at hmoved
+    · simp only [Except.ok.injEq, Prod.mk.injEq] at hmoved
+      obtain ⟨rfl, rfl⟩ := hmoved
+      exact ⟨hok, hg _ i.links, he _ _ i.pre, he _ _ i.post⟩
+
+theorem mem_mapIdx_gen {α β : Type} {f : Nat → α → β} {l : List α} {b : β} (h : b ∈ mapIdx f l 0) :
+    ∃ k a, l[k]? = some a ∧ b = f k a := by
+  obtain ⟨k, hk⟩ := List.getElem?_of_mem h
+  rw [getElem?_mapIdx] at hk
+  cases hl : l[k]? with
+  | none => simp [hl] at hk
+  | some a => simp [hl] at hk; exact ⟨k, a, hl, hk.symm⟩
+
+theorem conceive_inv {p : Pars} {ti : Rat} {d : Draws} {s s' : State} (hd : d.ok) (h : conceive p ti d s = .ok s')
+    (i : Inv s) : Inv s' := by
+  unfold conceive at h
+  dsimp only at h
+  split at h
+  · simp at h
+  · simp only [Except.ok.injEq] at h; subst h
+    -- abbreviations
+    generalize hM : uidsWhere (fun u a => a.conceives p d u) s.agents = mothers
+    have hlen : (mapIdx (fun u a => if mothers.contains u then
+        ({ a.setPrognoses p ti d u with child := some (s.agents.length + List.idxOf u mothers) } : Agent) else a) s.agents 0).length
+        = s.agents.length := length_mapIdx _ _ _
+    -- where things are in the new list
+    have hold : ∀ u (a : Agent), s.agents[u]? = some a →
+        (mapIdx (fun u a => if mothers.contains u then
+          ({ a.setPrognoses p ti d u with child := some (s.agents.length + List.idxOf u mothers) } : Agent) else a) s.agents 0 ++
+          mothers.map (embryo p ti d))[u]? =
+        some (if mothers.contains u then
+          ({ a.setPrognoses p ti d u with child := some (s.agents.length + List.idxOf u mothers) } : Agent) else a) := by
+      intro u a ha
+      have hlt : u < s.agents.length := (List.getElem?_eq_some_iff.mp ha).1
+      rw [List.getElem?_append_left (by rw [hlen]; exact hlt), getElem?_mapIdx, ha]; simp
+    have hkid : ∀ k m, mothers[k]? = some m →
+        (mapIdx (fun u a => if mothers.contains u then
+          ({ a.setPrognoses p ti d u with child := some (s.agents.length + List.idxOf u mothers) } : Agent) else a) s.agents 0 ++
+          mothers.map (embryo p ti d))[s.agents.length + k]? = some (embryo p ti d m) := by
+      intro k m hk
+      rw [List.getElem?_append_right (by rw [hlen]; omega), hlen, Nat.add_sub_cancel_left, List.getElem?_map, hk]; rfl
+    have hparent : ∀ u (a : Agent), (if mothers.contains u then
+          ({ a.setPrognoses p ti d u with child := some (s.agents.length + List.idxOf u mothers) } : Agent) else a).parent = a.parent := by
+      intro u a; split <;> rfl
+    refine ⟨?_, ?_, ?_, ?_⟩
+    · intro a ha
+      simp only [List.mem_append, List.mem_map] at ha
+      rcases ha with ha | ⟨m, _, rfl⟩
+      · obtain ⟨k, b, hk, rfl⟩ := mem_mapIdx ha
+        have hb := i.ok b (List.mem_of_getElem? hk)
+        split
+        · rename_i hc
+          have hm : k ∈ uidsWhere (fun u a => a.conceives p d u) s.agents := by rw [hM]; simpa using hc
+          obtain ⟨b', hb', hcon⟩ := mem_uidsWhere.mp hm
+          rw [hk] at hb'; cases hb'
+          exact ok_setPrognoses _ hb (conceives_eligible (hd k) hcon).2.2.1
+        · exact hb
+      · exact ok_embryo _ _ _ _
+    · intro m a' c hm hc
+      by_cases hlt : m < s.agents.length
+      · obtain ⟨a, ha⟩ : ∃ a, s.agents[m]? = some a := ⟨s.agents[m], List.getElem?_eq_getElem hlt⟩
+        rw [hold m a ha] at hm
+        simp only [Option.some.injEq] at hm; subst hm
+        by_cases hmo : mothers.contains m = true
+        · simp only [hmo, ↓reduceIte, Option.some.injEq] at hc; subst hc
+          have hmem : m ∈ mothers := by simpa using hmo
+          have hidx := List.idxOf_lt_length_of_mem hmem
+          refine ⟨embryo p ti d m, hkid _ m ?_, by simp [embryo]⟩
+          rw [List.getElem?_eq_getElem hidx]; simp [List.getElem_idxOf]
+        · simp only [hmo, Bool.false_eq_true, ↓reduceIte] at hc
+          obtain ⟨b, hb, hp⟩ := i.links m a c ha hc
+          exact ⟨_, hold c b hb, by rw [hparent]; exact hp⟩
+      · have hge : s.agents.length ≤ m := Nat.le_of_not_lt hlt
+        rw [List.getElem?_append_right (by rw [hlen]; exact hge), hlen, List.getElem?_map] at hm
+        cases hmk : mothers[m - s.agents.length]? with
+        | none => simp [hmk] at hm
+        | some mm => simp [hmk] at hm; subst hm; simp [embryo] at hc
+    · intro e he
+      rcases List.mem_append.mp he with he | he
+      · obtain ⟨b, hb, hp⟩ := i.pre e he
+        exact ⟨_, hold e.p2 b hb, by rw [hparent]; exact hp⟩
+      · split at he
+        · obtain ⟨k, m, hk, rfl⟩ := mem_mapIdx_gen he
+          simp only [Nat.zero_add] at *
+          exact ⟨embryo p ti d m, hkid k m hk, by simp [embryo]⟩
+        · simp at he
+    · intro e he
+      obtain ⟨b, hb, hp⟩ := i.post e he
+      exact ⟨_, hold e.p2 b hb, by rw [hparent]; exact hp⟩
+
+theorem doStep_inv {p : Pars} {ti st : Rat} {d : Draws} {s s' : State} (hd : d.ok) (h : doStep p ti st d s = .ok s')
+    (i : Inv s) : Inv s' := by
+  unfold doStep at h
+  split at h
+  · simp at h
+  · rename_i s1 h1
+    exact conceive_inv hd h (updateStates_inv h1 i)
+
+theorem runBurn_inv {p : Pars} {st : Rat} : ∀ (ts : List Int) (ds : List Draws) {s s' : State},
+    (∀ d ∈ ds, d.ok) → runBurn p st ts ds s = .ok s' → Inv s → Inv s'
+  | [], _, s, s', _, h, e => by simp only [runBurn, Except.ok.injEq] at h; subst h; exact e
+  | t :: ts, ds, s, s', hd, h, e => by
+      simp only [runBurn] at h
+      split at h
+      · simp at h
+      · rename_i s1 h1
+        have hhead : (ds.headD {}).ok := by
+          cases ds with
+          | nil => exact Draws.default_ok
+          | cons d _ => exact hd d (by simp)
+        exact runBurn_inv ts ds.tail (fun d hm => hd d (List.mem_of_mem_tail hm)) h (doStep_inv hhead h1 e)
+
+/-- a gentle per-agent update that also keeps `Agent.ok` preserves the invariant (edges unchanged or filtered) -/
+theorem Inv_mapIdx {f : Nat → Agent → Agent} {s : State} {pre' post' : List Edge} (hf : Gentle f)
+    (hok : ∀ k a, a.ok = true → (f k a).ok = true) (hpre : ∀ e ∈ pre', e ∈ s.pre) (hpost : ∀ e ∈ post', e ∈ s.post)
+    (i : Inv s) : Inv { agents := mapIdx f s.agents 0, pre := pre', post := post' } :=
+  ⟨fun a ha => by obtain ⟨k, b, hk, rfl⟩ := mem_mapIdx ha; exact hok k b (i.ok b (List.mem_of_getElem? hk)),
+   Links_mapIdx hf i.links, EdgesJoin_mapIdx hf (EdgesJoin_sub i.pre hpre), EdgesJoin_mapIdx hf (EdgesJoin_sub i.post hpost)⟩
+
+theorem Inv_map {g : Agent → Agent} {s : State} {pre' post' : List Edge} (hg : Gentle (fun _ => g))
+    (hok : ∀ a, a.ok = true → (g a).ok = true) (hpre : ∀ e ∈ pre', e ∈ s.pre) (hpost : ∀ e ∈ post', e ∈ s.post)
+    (i : Inv s) : Inv { agents := s.agents.map g, pre := pre', post := post' } := by
+  rw [map_eq_mapIdx g s.agents 0]; exact Inv_mapIdx hg (fun _ a h => hok a h) hpre hpost i
+
+theorem Inv_edges {s : State} {pre' post' : List Edge} (hpre : EdgesJoin s.agents pre') (hpost : EdgesJoin s.agents post')
+    (i : Inv s) : Inv { s with pre := pre', post := post' } := ⟨i.ok, i.links, hpre, hpost⟩
+
+theorem simStep_inv {p : Pars} {ti : Nat} {inp : StepIn} {s s' : State} (hi : inp.ok) (h : simStep p ti inp s = .ok s')
+    (i : Inv s) : Inv s' := by
+  unfold simStep at h
+  split at h
+  · simp at h
+  · rename_i s1 h1
+    simp only [Except.ok.injEq] at h; subst h
+    unfold stepToTransmission at h1
+    split at h1
+    · simp at h1
+    · rename_i s0 h0
+      simp only [Except.ok.injEq] at h1; subst h1
+      have i0 : Inv (requestDeath ti inp.deaths s) :=
+        Inv_mapIdx (s := s) (fun k a => by first | (split <;> simp) | (simp only []; split <;> simp)) (fun k a h => by first | (split <;> exact h) | (simp only []; split <;> exact h)) (fun e he => he) (fun e he => he) i
+      have i1 : Inv s0 := by
+        unfold pregStep at h0
+        split at h0
+        · split at h0
+          · simp at h0
+          · rename_i sb hb
+            exact doStep_inv hi.1 h0 (runBurn_inv _ _ hi.2 hb i0)
+        · exact doStep_inv hi.1 h0 i0
+      -- MaternalNet.step only rewrites beta
+      have i2 : Inv (matStep ti s0) := by
+        refine Inv_edges (s := s0) ?_ ?_ i1
+        · intro e he
+          simp only [List.mem_map] at he
+          obtain ⟨e0, he0, rfl⟩ := he
+          obtain ⟨b, hb, hp⟩ := i1.pre e0 he0
+          exact ⟨b, by split <;> exact hb, by split <;> exact hp⟩
+        · intro e he
+          simp only [List.mem_map] at he
+          obtain ⟨e0, he0, rfl⟩ := he
+          obtain ⟨b, hb, hp⟩ := i1.post e0 he0
+          exact ⟨b, by split <;> exact hb, by split <;> exact hp⟩
+      have i3 : Inv (stepDie ti (matStep ti s0)) :=
+        Inv_map (s := matStep ti s0) (fun k a => by first | (split <;> simp) | (simp only []; split <;> simp)) (fun a h => by first | (split <;> exact h) | (simp only []; split <;> exact h))
+          (fun e he => he) (fun e he => he) i2
+      have i4 : Inv (finishStep ti inp.neo (stepDie ti (matStep ti s0))) := by
+        unfold finishStep
+        dsimp only
+        have ia := Inv_mapIdx (s := stepDie ti (matStep ti s0))
+          (f := fun u a => if ((uidsWhere (fun _ a => (a.active && leO a.pTiDead (ti + 1)) && a.pregnant) (stepDie ti (matStep ti s0)).agents).filterMap
+              (fun m => (getA (stepDie ti (matStep ti s0)).agents m).child)).filter inp.neo |>.contains u then { a with pTiDead := some (ti : Rat) } else a)
+          (fun k a => by first | (split <;> simp) | (simp only []; split <;> simp)) (fun k a h => by first | (split <;> exact h) | (simp only []; split <;> exact h)) (fun e he => he) (fun e he => he) i3
+        exact Inv_mapIdx (s := _) (fun k a => by first | (split <;> simp) | (simp only []; split <;> simp))
+          (fun k a h => by
+            first
+              | (split
+                 · simp [Agent.ok, Agent.excl]
+                 · exact h)
+              | (simp only []
+                 split
+                 · simp [Agent.ok, Agent.excl]
+                 · exact h)) (fun e he => he) (fun e he => he) ia
+      have i5 : Inv (removeDead (finishStep ti inp.neo (stepDie ti (matStep ti s0)))) :=
+        Inv_map (s := finishStep ti inp.neo (stepDie ti (matStep ti s0))) (fun k a => by first | (split <;> simp) | (simp only []; split <;> simp))
+          (fun a h => by first | (split <;> exact h) | (simp only []; split <;> exact h)) (fun e he => (List.mem_filter.mp he).1) (fun e he => (List.mem_filter.mp he).1) i4
+      exact Inv_map (s := removeDead _) (gentle_ageBy p.dtYear) (fun a h => ok_ageBy _ a h) (fun e he => he) (fun e he => he) i5
+
+theorem run_inv {p : Pars} : ∀ (ins : List StepIn) (ti : Nat) {s s' : State}, (∀ i ∈ ins, i.ok) →
+    run p ti ins s = .ok s' → Inv s → Inv s'
+  | [], _, s, s', _, h, e => by simp only [run, Except.ok.injEq] at h; subst h; exact e
+  | i :: is, ti, s, s', hi, h, e => by
+      simp only [run] at h
+      split at h
+      · simp at h
+      · rename_i s1 h1
+        exact run_inv is (ti + 1) (fun j hj => hi j (by simp [hj])) h (simStep_inv (hi i (by simp)) h1 e)
+
+end StarsimModel.Pregnancy
